@@ -233,7 +233,9 @@ REGISTRY["C20"] = {
 
 LEVEL_NOTE = ("Trusted: Lean 4.33 kernel; axioms propext / Classical.choice / Quot.sound only (audited by #print axioms on every run, no sorry / "
               "native_decide / own axioms); the hand-written model, tied to /repo by the differential correspondence of this check (same cases to the "
-              "real code and to the compiled Lean driver); tools/extract.py for the regenerated tables; CPython / typing / dataclasses. "
+              "real code and to the compiled Lean driver) and, where this property's theorem list names a `…SrcThm` / `Tables` / `Wiring` / `RecLockThm` theorem, by "
+              "terms regenerated from the source on every run (tools/extract.py: literal tables, cache wiring, if / elif chains, Boolean conditions, set "
+              "expressions, dict programs, the lock shape) that the theorem proves equal to the model; CPython / typing / dataclasses. "
               "Clauses proved only on a fragment are named in the evidence (partial_clauses) and decided outside it by the correspondence and the "
               "property check on the real code.")
 
@@ -287,9 +289,13 @@ TEXT["C20"] = ("Kernel-checked small-step interleaving semantics of the recursio
                "synchronisation (no axioms) and, for the locked protocol, mutual exclusion of the two analyses for every type graph and every schedule by "
                "induction over the schedule; tied by replaying generated schedules on real threads through yield points injected at the shared cache, plus a "
                "pre-emptive stress run compared with sequential execution. Partial: see level_note.")
+SRC_TIED = {k for k, r in REGISTRY.items() if any(("SrcThm" in m or "TablesThm" in m or "WiringThm" in m or "RecLockThm" in m) for m, _ in r["theorems"])}
 for k, v in TEXT.items():
     REGISTRY[k]["level_text"] = v
     REGISTRY[k]["level_note"] = LEVEL_NOTE
+    REGISTRY[k]["technique"] = ("Lean 4 theorems over a hand-written model" + ("; parts of the model regenerated from the source by a translator on every run and "
+                                "proved equal to it" if k in SRC_TIED else "") + "; differential correspondence with the real code; on a broken obligation or "
+                                "correspondence, search for a failing input on the real code")
 
 # properties registered in MANIFEST.json (a property is claimed once its check is green on the unchanged tree)
 CLAIMED = ["C01", "C02", "C03", "C04", "C05", "C06", "C07", "C08", "C09", "C10", "C11", "C12", "C13", "C14", "C15", "C16", "C17", "C18", "C19", "C20"]
